@@ -376,6 +376,8 @@ class SpectrumArithScenario(Scenario):
             wave = [w * f for w in wave]
             vunit = rng.choice([None, None, None, dens, dens])
             value = [round(rng.uniform(0.2, 2.0), 3) for _ in wave]
+            if rng.random() < 0.2:
+                value = [rng.randint(1, 4) for _ in wave]       # counts / a boxcar typed in as whole numbers: an integer-typed value array
             sid = 'S%d' % j
             if j == n - 1 and n >= 3 and rng.random() < 0.3:
                 vunit = rng.choice(['photlam', 'wlam'])
@@ -472,7 +474,7 @@ class SpectrumArithScenario(Scenario):
                     if opname == 'multiply' and rng.random() < 0.4:
                         E('s*', [{'$nd': v}, '@' + s['id']], t={'expect': 'ok', 'nd_left': True})
                     else:
-                        E(rng.choice([sym, 'Spectrum.' + opname]), ['@' + s['id'], rng.choice([v, {'$nd': v}])], t={'expect': 'ok'})
+                        E(rng.choice([sym, 'Spectrum.' + opname]), ['@' + s['id'], rng.choice([v, {'$nd': v}, {'$tuple': v}])], t={'expect': 'ok'})
                 elif kind == 'rscalar':
                     E('s*', [rng.choice([2, 0.25, 1, 1.0]), '@' + s['id']], t={'expect': 'ok'})
                     mine.append(prog[-1]['id'])
